@@ -542,8 +542,9 @@ func runProbeChild(spec string) {
 		fmt.Println("PROBE-ENGINE-ERROR", err)
 		return
 	}
+	bound := bind(v, *m)
 	for i := range tuples {
-		invoke(v, *m, tuples[i], descr[i])
+		invoke(bound, *m, tuples[i], descr[i])
 	}
 	time.Sleep(20 * time.Millisecond) // let goroutines started by the call run into whatever they run into
 	fmt.Println("PROBE-LIVE-DONE")
@@ -551,7 +552,7 @@ func runProbeChild(spec string) {
 	env.paths = closedPaths(entries)
 	tuples, descr, _ = argTuples(*m, env)
 	for i := range tuples {
-		invoke(v, *m, tuples[i], descr[i])
+		invoke(bound, *m, tuples[i], descr[i])
 	}
 	time.Sleep(20 * time.Millisecond)
 	fmt.Println("PROBE-CLOSED-DONE")
